@@ -76,6 +76,20 @@ Definition poci : P (list finding) :=
     (let* m := phex in let* u := phex in
      let* r := popt (let* h := phex in let* ps := plist pparam in pret (h, ps)) in
      pret (check_oci m u r))
+  else if beqb t (Tokens.w "e2e") then
+    (* end to end through the example's own server: a bare 404/405 (no content type) is the ROUTER's "no route";
+       every handler answers with another status or a JSON error body *)
+    (let* m := ptok in let* u := phex in let* status := pnum in let* ct := pbool in let* _ := pnum in
+     let real_routed := negb (((N.eqb status 404%N) || (N.eqb status 405%N)) && negb ct) in
+     let model_routed :=
+       match List.find (fun mr : bytes * router => beqb (fst mr) m) oci_routers with
+       | Some (_, r) => match rsearch oci_chk r u with Some _ => true | None => false end
+       | None => false
+       end in
+     pret (fl (Bool.eqb real_routed model_routed) FOciE2E [m; u]))
+  else if beqb t (Tokens.w "e2e-fail") then
+    (let* m := ptok in let* u := phex in pret [(FOciE2E, [m; u])])
+  else if beqb t (Tokens.w "e2e-skip") then (let* _ := ptok in let* _ := phex in pret [])
   else if beqb t (Tokens.w "ociname") then
     (let* v := phex in let* b := pbool in pret (fl (Bool.eqb b (name_ok v)) FOciName [v]))
   else pfail.
